@@ -192,6 +192,23 @@ def s1_s6(repo, res):
 
 # ------------------------------------------------------------------------------------------------ S3
 SHAPE_RE = re.compile(r"shape\s*\(([^)]*)\)")
+_MORE_RE = re.compile(r"\s*(?:or|,)\s*\(([^)]*)\)")
+
+
+def documented_shapes(text):
+    """all shape tuples of a `shape (3,) or (n,3)` phrase (every alternative, not only the first)"""
+    out = []
+    for m in SHAPE_RE.finditer(text):
+        out.append(m.group(1))
+        pos = m.end()
+        while True:
+            m2 = _MORE_RE.match(text, pos)
+            if not m2:
+                break
+            out.append(m2.group(1))
+            pos = m2.end()
+    return out
+
 
 
 def s3(repo, res):
@@ -208,7 +225,7 @@ def s3(repo, res):
                     text = ast.unparse(st)
                 except Exception:
                     text = ""
-            shapes = SHAPE_RE.findall(text or "")
+            shapes = documented_shapes(text or "")
             dims = lit(kw(c, "dims"))
             if dims is None and isinstance(kw(c, "dims"), ast.Call) and call_name(kw(c, "dims")) == "range":
                 a = [lit(x) for x in kw(c, "dims").args]
